@@ -56,6 +56,9 @@ def run(chk, tier):
     # R20.5 a script is a tuple of clauses: every element of every arity reaches the assembler, in order
     from props import assembly as A
     A.tuple_order(chk, F, 'R20.5', cfg)
+    # R20.3.eval every call is resolved by eval_dyn's table (no shortcut in front of it that forgets default bodies)
+    from props import evalcore as E
+    E.eval_table(chk, F, 'R20.3.eval', cfg)
     uni = mirrored(F, 'Unimock')
     dele = mirrored(F, 'default_impl_delegator::DefaultImplDelegator')
     traits = sorted(set(im['trait'] for im in uni))
